@@ -26,6 +26,9 @@ TLA_JAR = "/opt/veriftools/tla/tla2tools.jar:/opt/veriftools/tla/CommunityModule
 REPO = os.environ.get("HARPER_SRC", "/repo")
 
 
+LAST_DRIFTS = []
+
+
 class ToolError(Exception):
     pass
 
@@ -221,6 +224,7 @@ def validate_trace(trace_tla, cfg, trace_file, name, timeout=900, xmx="4g", env_
             coverage=False, xmx=xmx, xss="1g", deque=True)
     consumed = None
     rejects = []
+    r.drifts = []
     for line in r.prints:
         v = parse_print_raw(line)
         if not v:
@@ -229,6 +233,8 @@ def validate_trace(trace_tla, cfg, trace_file, name, timeout=900, xmx="4g", env_
             consumed = v[1]
         elif v[0] == "REJECT":
             rejects.append(v[1:])
+        elif v[0] == "DRIFT":
+            r.drifts.append(v[1:])
     if consumed is None:
         raise ToolError(f"trace validation of {trace_file} did not finish:\n" + r.output[-2000:])
     return consumed, rejects, r
@@ -236,14 +242,18 @@ def validate_trace(trace_tla, cfg, trace_file, name, timeout=900, xmx="4g", env_
 
 def validate_traces_parallel(trace_tla, cfg, files, name, procs=6, timeout=1800, env_extra=None):
     """Validate many trace files with several TLC processes. Returns list of
-    (file, consumed, rejects)."""
+    (file, consumed, rejects); DRIFT lines are collected in LAST_DRIFTS as (file, [args])."""
+    global LAST_DRIFTS
+    LAST_DRIFTS = []
     from concurrent.futures import ThreadPoolExecutor
     out = []
 
     def one(i_f):
         i, f = i_f
-        c, rej, _ = validate_trace(trace_tla, cfg, f, f"{name}_{i}", timeout=timeout,
+        c, rej, r = validate_trace(trace_tla, cfg, f, f"{name}_{i}", timeout=timeout,
                                    env_extra=env_extra)
+        for d in r.drifts:
+            LAST_DRIFTS.append((f, d))
         return (f, c, rej)
     with ThreadPoolExecutor(max_workers=procs) as ex:
         for res in ex.map(one, list(enumerate(files))):
@@ -310,7 +320,13 @@ def match_known(prop, sig, known):
         if k.get("property") != prop or k.get("status") != "known":
             continue
         ks = k.get("signature", {})
-        if ks and all(sig.get(a) == b for a, b in ks.items()):
+
+        def eq(a, b):
+            if a.endswith("_re"):
+                val = sig.get(a[:-3])
+                return isinstance(val, str) and re.fullmatch(b, val, re.S) is not None
+            return sig.get(a) == b
+        if ks and all(eq(a, b) for a, b in ks.items()):
             return k
     return None
 
